@@ -95,8 +95,61 @@ def run(tier):
         atan2_axes(chk, F, ty)
         unary_at_zero(chk, F, ty)
         bessel_at_zero(chk, F, ty)
+    float_special(chk, F)
+    values_at_special_points(chk, F)
     chk.floor("special-point evaluations", chk.analysed.get("special-point evaluations", 0), 8 * 15)
     return chk.finish()
+
+
+def float_special(chk, F):
+    """the plain-float instances of the interface (the order-0 base case) at the same special points"""
+    for fl in ("f32", "f64"):
+        imps = [i for i in F.impls_of("DualNum") if F.ty(i["self"]).get("n") == fl]
+        if len(imps) != 1:
+            chk.undecide("special|%s" % fl, "missing anchor: impl DualNum<%s> for %s" % (fl, fl))
+            continue
+        for name in ("sph_j0", "sph_j1", "sph_j2"):
+            body = F.impl_item(imps[0], name)
+            if body is None:
+                chk.undecide("special|%s|%s" % (fl, name), "missing anchor")
+                continue
+            for pname, val in POINTS:
+                key = "special|%s|%s|%s" % (fl, name, pname)
+                try:
+                    paths = run_b(F, body, lambda: [Sc(BV(["zero"] if val == 0 else (["pos"] if val > 0 else ["neg"]), ex=val))])
+                    chk.count("special-point evaluations")
+                    for ctx, v in paths:
+                        v = unref(v)
+                        ok = isinstance(v, Sc) and v.v.finite()
+                        chk.ob(key, ok, "%s on plain floats at %s: the result is finite" % (name, pname), body_loc(F, body),
+                               found=v.v.show() if isinstance(v, Sc) else repr(v)[:80], detail="path: " + short(path_descr(ctx)))
+                except Unsupported as ex:
+                    chk.undecide(key, "unsupported: %s" % ex, body_loc(F, body))
+
+
+def values_at_special_points(chk, F):
+    """'... and equals the mathematical value': at 0 and its neighbours the arm taken by the Bessel / spherical Bessel functions is
+    the Maclaurin polynomial of the function (coefficients compared exactly, truncation adequate for the orders carried)"""
+    from . import c14, c15
+    tr = F.traits.get("bessel::BesselDual")
+    if tr is None:
+        chk.undecide("value|bessel", "missing anchor: trait BesselDual")
+    else:
+        for n in (0, 1, 2):
+            body = {it["name"]: F.bodies.get(it["did"]) for it in tr["items"]}.get("bessel_j%d" % n)
+            if body is None:
+                chk.undecide("value|bessel|j%d" % n, "missing anchor")
+                continue
+            c14.small_series(chk, F, body, n)
+    from . import c01
+    for ty in TYPES:
+        imp = algebra.dualnum_impl(F, ty)
+        for n in (0, 1, 2):
+            body = F.impl_item(imp, "sph_j%d" % n) if imp else None
+            if body is not None:
+                c15.analyse(chk, F, body, ty, n, orders=list(range(0, ORDER[ty] + 1)), label=ty)
+        # atan2 on the axes: both arms (atan(y/x), -atan(x/y)) carry the derivative parts of the two-argument arctangent
+        c01.check_atan2(chk, F, ty, tag="value")
 
 
 def run_b(F, body, build, hooks=None):
@@ -180,6 +233,8 @@ def atan2_axes(chk, F, ty):
 
 
 TINY = Fr(1, 2 ** 1074)   # the smallest positive f64: the immediate floating-point neighbours of 0
+MIN_NORMAL = Fr(1, 2 ** 1022)
+POINTS = (("x=0", Fr(0)), ("x=+tiny", TINY), ("x=-tiny", -TINY), ("x=+min_normal", MIN_NORMAL), ("x=-min_normal", -MIN_NORMAL))
 
 
 def unary_at_zero(chk, F, ty):
@@ -189,7 +244,7 @@ def unary_at_zero(chk, F, ty):
         if body is None:
             chk.undecide("special|%s|%s|x=0" % (ty, name), "missing anchor")
             continue
-        for pname, val in (("x=0", Fr(0)), ("x=+tiny", TINY), ("x=-tiny", -TINY)):
+        for pname, val in POINTS:
             key = "special|%s|%s|%s" % (ty, name, pname)
             try:
                 paths = run_b(F, body, lambda: [b_operand(ty, BV(["zero"] if val == 0 else (["pos"] if val > 0 else ["neg"]), ex=val))])
